@@ -197,6 +197,10 @@ def discharge(check_id, job, pr, out, replay_kind, describe=None, timeout_ms=400
                 out.d["notes"].append({"obligation": name, "info": info})
                 break
             # sat: replay on the real code
+            if meta.get("key") and known_match(load_known()[0], check_id, meta["key"]) and tries >= 1:
+                # the obligation is the call site of a listed known finding; one replay attempt was made already
+                verdict = "known-abstract"
+                break
             if out.d.get("unreproduced_budget", 0) >= 3:
                 verdict = "unreproduced"   # this job already showed models that do not replay; do not burn time on more
                 break
@@ -239,6 +243,12 @@ def discharge(check_id, job, pr, out, replay_kind, describe=None, timeout_ms=400
                 verdict = "unreproduced"
                 break
             blocked.append(z3.Or(*lits))
+        if verdict in ("unreproduced", "known-abstract") and meta.get("key") and known_match(load_known()[0], check_id, meta["key"]):
+            # listed known finding: the solver still finds the defect at this call site (this model did not concretise)
+            out.d["violations"].append({"obligation": name, "replay": None, "inputs": jsonable(model or {}), "detail": "abstract witness",
+                                        "kind": meta.get("replay", replay_kind), "job": job, "key": meta["key"]})
+            out.d["sat"] += 1
+            continue
         if verdict == "unreproduced":
             out.d["unreproduced_budget"] = out.d.get("unreproduced_budget", 0) + 1
         if verdict == "unreproduced" and not meta.get("no_ladder") and out.d.get("unreproduced_budget", 0) <= 1:
